@@ -1,5 +1,6 @@
 """C06 — retention bounds the count and deletes only the oldest (DESIGN.md section 3, C06)."""
 import itertools
+import re
 
 from engine.util import *
 from rules.rfs import *
@@ -200,6 +201,77 @@ def pattern_templates(fn, ck=None):
         if t is not None:
             out.append((t, args, n))
     return out
+
+
+def arg_chains(fn):
+    """[(outermost arg() node, template or None, [[argument nodes of the 1st arg() call], [of the 2nd], ...])]"""
+    out = []
+    for n in fn.calls("QString::arg"):
+        p = fn.nodes.get(fn.parent.get(n["id"]))
+        if p is not None and is_call(p, "QString::arg") and skip_copies(p.get("obj")).get("id") == n["id"]:
+            continue
+        groups = []
+        x = n
+        while is_call(x, "QString::arg"):
+            groups.insert(0, [a for a in x.get("args", []) if a.get("k") != "defaultarg"])
+            x = skip_copies(x.get("obj"))
+        out.append((n, const_str(x), groups))
+    return out
+
+
+INTEGRAL = ("int", "unsigned int", "long", "unsigned long", "long long", "unsigned long long", "short", "unsigned short", "qint64", "quint64", "double", "float")
+
+
+def placeholder_free(fn, a):
+    """can the text this .arg() argument contributes contain a `%<digit>` sequence?  True: cannot / False: it is caller-chosen text /
+    None: not known"""
+    a0 = skip_copies(a)
+    if (a0.get("type") or "").replace("const ", "").strip() in INTEGRAL:
+        return True          # arg(int): decimal digits and a sign
+    a = deref_local(fn, a0)
+    from engine.strabs import OWNER
+    fn = OWNER.get(id(a), fn)
+    if (a.get("type") or "").replace("const ", "").strip() in INTEGRAL:
+        return True
+    if is_call(a, ("QString::number", "QByteArray::number")):
+        return True
+    c = const_str(a)
+    if c is not None:
+        return "%" not in c
+    if is_call(a, ("QDate::toString", "QDateTime::toString", "QTime::toString")):
+        fmt = const_str(a["args"][0]) if a.get("args") else None
+        # a literal format of digits-producing fields and separators; text fields (MMMM, dddd, AP, t) are locale text
+        return True if fmt is not None and re.fullmatch(r"[yMdHhmsz\-_:. T/]*", fmt) and "MMM" not in fmt and "ddd" not in fmt else None
+    if is_call(a, "QRegularExpression::escape"):
+        return placeholder_free(fn, a["args"][0])      # escape() puts a backslash before the '%' and leaves "%1" readable
+    if is_call(a, ("QFileInfo::completeBaseName", "QFileInfo::baseName", "QFileInfo::suffix", "QFileInfo::completeSuffix", "QFileInfo::fileName",
+                   "QFileInfo::path", "QFileInfo::absolutePath", "QFileInfo::filePath", "QFileInfo::absoluteFilePath", "QFileDevice::fileName", "QFile::fileName")):
+        return False         # a piece of the log file's name, which the user chooses
+    if a.get("k") == "ref" and a.get("dk") == "param" and "QString" in (a.get("type") or ""):
+        return False
+    return None
+
+
+def single_pass(ck, fn, rid, short=None):
+    """QString::arg replaces the lowest-numbered placeholder of the *current* text: in a chain t.arg(a).arg(b) a '%1' inside a's text is
+    what .arg(b) replaces.  Every value substituted before the last call of a chain must therefore be unable to contain a placeholder
+    (numbers, dates in a numeric format, literals without '%'); free text goes into one multi-argument call or into the last call."""
+    import re as _re
+    short = short or strip_tmpl(fn.name).split("::")[-1]
+    n_chains = 0
+    for node, tmpl, groups in arg_chains(fn):
+        n_chains += 1
+        early = [a for g in groups[:-1] for a in g]
+        verdicts = [(a, placeholder_free(fn, a)) for a in early]
+        bad = [a for a, v in verdicts if v is False]
+        unk = [a for a, v in verdicts if v is None]
+        ok = False if bad else None if unk else True
+        ck.ob(rid, sitestr(fn, node), ok,
+              "%s: %d .arg() call(s) on %r; nothing substituted before the last call can contain a placeholder" % (short, len(groups), tmpl) if ok else
+              "%s: %s is substituted by an earlier .arg() of a chain; a '%%1' inside it is replaced by the next .arg() (file name app%%1.log -> app<index>...)" % (short, describe((bad or unk)[0])[:60]) if bad else
+              "%s: cannot tell whether %s may contain a placeholder" % (short, describe(unk[0])[:60]),
+              key="%s|arg-chain" % short)
+    return n_chains
 
 
 def regex_patterns(F, fn):
